@@ -187,8 +187,14 @@ def cases(draw):
                 t["entries"] = lead + t["entries"]
                 break
     if r in (0, 1):
-        case["max_override"] = draw(st.sampled_from([spec["maxT"], spec["maxT"] + 1.0, spec["maxT"] * 2 + 0.5]))
-        if not case["max_override"] >= spec["maxT"]:
+        last = max([x for t in spec["tiers"] for e in t["entries"] for x in e[:-1]] + [spec["minT"]])
+        opts = [spec["maxT"], spec["maxT"] + 1.0, spec["maxT"] * 2 + 0.5]
+        if clean and spec["maxT"] - last > 1e-3:
+            opts += [(last + spec["maxT"]) / 2] * 2  # shorter than the textgrid, yet beyond every entry
+        case["max_override"] = draw(st.sampled_from(opts))
+        if case["max_override"] < spec["maxT"] and not (case["max_override"] > last + 1e-6):
+            case["max_override"] = spec["maxT"]
+        if not case["max_override"] > spec["minT"]:
             case["max_override"] = None
     if r in (1, 2) and spec["minT"] > 0:
         case["min_override"] = draw(st.sampled_from([0.0, spec["minT"], spec["minT"] / 2]))
